@@ -164,3 +164,215 @@ def gen_own(seed, n):
             if treasury:
                 lines.append("tquery")
     return "\n".join(lines) + "\n", {"histories": n}
+
+
+# ---------------- C13: treasury ----------------
+def hop_s(h):
+    return "%d/%s/%s" % (h[0], hx(h[1]), hx(h[2]))
+
+
+def route_s(r):
+    return "[" + ",".join(hop_s(h) for h in r) + "]"
+
+
+def routes_s(rs):
+    return "{" + ";".join(route_s(r) for r in rs) + "}"
+
+
+def route_variants(rnd, allowed):
+    """candidate routes derived from the allow-list by the listed edit operations"""
+    out = [[]]
+    for r in allowed:
+        out.append(list(r))
+        for k in range(1, len(r)):
+            out.append(r[:k]); out.append(r[k:])
+        out.append(list(reversed(r)))
+        if r:
+            h = r[0]
+            out.append([(h[0] + 1, h[1], h[2])] + r[1:]); out.append([(h[0], h[1] + "x", h[2])] + r[1:])
+            out.append(r[:-1] + [(r[-1][0], r[-1][1], r[-1][2] + "x")])
+            out.append(r + [(99, r[-1][2], "uextra")])
+    for a in allowed:
+        for b in allowed:
+            out.append(a + b)
+    return out
+
+
+def gen_treasury(seed, n):
+    rnd = random.Random(seed)
+    lines = []
+    denoms = ["utia", "uosmo", "uusdc", "uatom", D]
+    for h in range(n):
+        c = Cfg(rnd, h)
+        lines.append(header("osmosis", c.me))
+        trader = c.users[0]; admin = c.admin
+        nroutes = rnd.randrange(0, 5)
+        allowed = []
+        for _ in range(nroutes):
+            k = rnd.randrange(1, 4); ds = [rnd.choice(denoms) for _ in range(k + 1)]
+            allowed.append([(rnd.randrange(1, 6), ds[i], ds[i + 1]) for i in range(k)])
+        t = T0 + rnd.randrange(10 ** 12)
+        who = rnd.choice([admin, admin, c.users[1]])
+        lines.append("tinst %d %s %s %s %s" % (t, hx(who), rnd.choice([hx(admin), "-"]), rnd.choice([hx(trader)] * 6 + ["-"] * 3 + [hx("bad address")]), routes_s(allowed)))
+        lines.append("tquery")
+        ppl = [admin, trader, c.users[1], c.users[2], who]
+        cands = route_variants(rnd, allowed)
+        for r in cands:
+            for snd in ([trader] if rnd.random() < 0.7 else ppl):
+                if r:
+                    din = rnd.choice([r[0][1], r[0][1], r[-1][2], "uother"]); dout = rnd.choice([r[-1][2], r[-1][2], r[0][1], "uother"])
+                else:
+                    din = dout = "utia"
+                amt = rnd.choice([0, 1, 10 ** 6, 2 ** 128 - 1]); lim = rnd.choice([0, 1, 12345, 2 ** 128 - 1])
+                lines.append("texec %d %s swapin %s %s:%d %d" % (t, hx(snd), route_s(r), hx(din), amt, lim))
+                lines.append("texec %d %s swapout %s %s:%d %d" % (t, hx(snd), route_s(r), hx(dout), amt, lim))
+        recv = [b32.addr("osmo", "r1"), b32.addr("celestia", "r2"), b32.addr("osmo", "r3", 32), b32.addr("cosmos", "r4"),
+                b32.addr("osmo", "r1").upper(), b32.addr("osmo", "r1")[:-1] + "q", "garbage", b32.addr("celestia", "r2", 20, 0x2bc830a3)]
+        for rc in recv:
+            for ch in ["-", hx("channel-2"), hx("")]:
+                for snd in [admin, trader, who]:
+                    lines.append("texec %d %s spend %s:%d %s %s" % (t + 5, hx(snd), hx(rnd.choice(denoms)), rnd.choice([0, 5, 10 ** 30]), hx(rc), ch))
+        lines.append("texec %d %s spend %s:%d %s %s" % (2 ** 64 - 5, hx(admin), hx("utia"), 5, hx(recv[1]), hx("channel-2")))
+        for snd in ppl:
+            lines.append("tx_begin")
+            lines.append("texec %d %s updcfg %s %s" % (t + 9, hx(snd), rnd.choice(["-", hx(c.users[2]), hx("nope")]), rnd.choice(["-", routes_s(allowed[:1]), "{}"])))
+            lines.append("tquery")
+            lines.append("tx_abort")
+        lines.append("texec %d %s updcfg %s %s" % (t + 9, hx(admin), hx(c.users[2]), routes_s(allowed[1:])))
+        lines.append("tquery")
+        if allowed:
+            lines.append("texec %d %s swapin %s %s:%d %d" % (t + 10, hx(c.users[2]), route_s(allowed[0]), hx(allowed[0][0][1]), 7, 1))
+            lines.append("texec %d %s swapin %s %s:%d %d" % (t + 10, hx(trader), route_s(allowed[0]), hx(allowed[0][0][1]), 7, 1))
+        for name, ver in [("treasury", "0.4.19"), ("treasury", "0.4.20"), ("treasury", "0.4.21"), ("staking", "0.1.0"), ("treasury", "0.4"), ("treasury", "abc"), ("treasury", "0.3.99")]:
+            lines.append("tmig %s %s" % (hx(name), hx(ver)))
+    return "\n".join(lines) + "\n", {"histories": n}
+
+
+# ---------------- C14: validation ----------------
+def corrupt_addr(rnd, a, hrp):
+    """field-level corruption operators on a bech32 address"""
+    k = rnd.randrange(12)
+    if k == 0:
+        return a.upper()
+    if k == 1:
+        return a[:5] + a[5].upper() + a[6:]                       # mixed case
+    if k == 2:
+        return a[:-1]                                             # truncated
+    if k == 3:
+        c = b32.CHARSET[(b32.CHARSET.index(a[-1]) + 1) % 32]
+        return a[:-1] + c                                         # checksum damage
+    if k == 4:
+        return b32.addr(hrp, "m" + a, 20, 0x2bc830a3)              # Bech32m re-encoding
+    if k == 5:
+        return b32.addr("cosmos", a)                               # other prefix
+    if k == 6:
+        return b32.addr(hrp + "valoper", a)
+    if k == 7:
+        return ""
+    if k == 8:
+        return a + " "
+    if k == 9:
+        return a.replace("1", "l", 1)
+    if k == 10:
+        return hrp + "1"
+    return a
+
+
+def corrupt_prefix(rnd, p):
+    return rnd.choice([p.upper(), p.capitalize(), "", p + " ", "x" * 84, "x" * 83, p + "\x7f", p + "1", "a1b", "~", p[:-1], p + "é"])
+
+
+def corrupt_channel(rnd):
+    return rnd.choice(["channel-+5", "channel-", "channel--1", "channel-007", "channel-18446744073709551615", "channel-18446744073709551616",
+                       "channel-1 ", " channel-1", "Channel-1", "channel-1a", "channel-０", "channel", "chan-1", "channel-0x1", "channel-+", "channel-1e3"])
+
+
+def corrupt_ibc(rnd):
+    return rnd.choice(["ibc/" + "A" * 63, "ibc/" + "A" * 65, "IBC/" + "A" * 64, "ibc" + "A" * 65, "ibc/", "utia", "ibc/" + "é" * 32, "ibc/" + "a" * 64])
+
+
+def corrupt_denom(rnd):
+    return rnd.choice(["abc", "ab", "", "abcd1", "ab-cd", "stTIA ", "ABCD", "abcdé", "a" * 200, "utia"])
+
+
+def gen_config(seed, n):
+    rnd = random.Random(seed)
+    lines = []
+    for h in range(n):
+        c = Cfg(rnd, h)
+        lines.append(header("osmosis", c.me))
+        t = T0
+        # --- instantiate: valid, or with one corrupted field ---
+        f = dict(np=c.np, vp=c.vp, nd="utia", vals=list(c.validators), ub=c.unbonding, staker=c.staker, coll=c.collector,
+                 pp="osmo", pd=D, ch=c.channel, mn=c.min, orc=c.oracle, fee=c.fee, tr=c.treasury, sub=c.sub, bp=c.bp, mons=list(c.monitors))
+        def mutate(f):
+            g = dict(f); g["vals"] = list(f["vals"]); g["mons"] = list(f["mons"])
+            k = rnd.randrange(22)
+            if k == 0: g["np"] = corrupt_prefix(rnd, f["np"])
+            elif k == 1: g["vp"] = corrupt_prefix(rnd, f["vp"])
+            elif k == 2: g["nd"] = corrupt_denom(rnd)
+            elif k == 3: g["vals"] = f["vals"] + [f["vals"][0]]
+            elif k == 4: g["vals"] = [corrupt_addr(rnd, f["vals"][0], f["vp"])] + f["vals"][1:]
+            elif k == 5: g["staker"] = corrupt_addr(rnd, f["staker"], f["np"])
+            elif k == 6: g["coll"] = corrupt_addr(rnd, f["coll"], f["np"])
+            elif k == 7: g["pp"] = corrupt_prefix(rnd, f["pp"])
+            elif k == 8: g["pd"] = corrupt_ibc(rnd)
+            elif k == 9: g["ch"] = corrupt_channel(rnd)
+            elif k == 10: g["orc"] = corrupt_addr(rnd, f["orc"] or b32.addr("osmo", "o"), "osmo")
+            elif k == 11: g["tr"] = corrupt_addr(rnd, f["tr"] or b32.addr("osmo", "t"), "osmo")
+            elif k == 12: g["sub"] = corrupt_denom(rnd)
+            elif k == 13: g["mons"] = f["mons"] + [f["mons"][0]]
+            elif k == 14: g["mons"] = [corrupt_addr(rnd, f["mons"][0], "osmo")]
+            elif k == 15: g["vals"] = []
+            elif k == 16: g["vals"] = f["vals"] + [f["vals"][0].upper()]          # case-variant duplicate
+            elif k == 17: g["np"] = f["np"].upper(); g["vp"] = f["vp"].upper()
+            elif k == 18: g["mons"] = []
+            elif k == 19: g["staker"] = b32.addr(f["pp"], "x")                   # protocol address as staker
+            return g
+        def native_s(g):
+            return "(%s;%s;%s;[%s];%d;%s;%s)" % (hx(g["np"]), hx(g["vp"]), hx(g["nd"]), ",".join(hx(v) for v in g["vals"]), g["ub"], hx(g["staker"]), hx(g["coll"]))
+        def protocol_s(g):
+            return "(%s;%s;%s;%d;%s)" % (hx(g["pp"]), hx(g["pd"]), hx(g["ch"]), g["mn"], hx(g["orc"]) if g["orc"] is not None else "-")
+        def fee_s(g):
+            return "(%d;%s)" % (g["fee"], hx(g["tr"]) if g["tr"] is not None else "-")
+        def inst_s(g, t):
+            return "inst %d %s %s %s %s [%s] %d %s %s %s %s %s %d %s %d %s %s %d [%s]" % (
+                t, hx(c.admin), hx(g["np"]), hx(g["vp"]), hx(g["nd"]), ",".join(hx(v) for v in g["vals"]), g["ub"], hx(g["staker"]), hx(g["coll"]),
+                hx(g["pp"]), hx(g["pd"]), hx(g["ch"]), g["mn"], hx(g["orc"]) if g["orc"] is not None else "-", g["fee"],
+                hx(g["tr"]) if g["tr"] is not None else "-", hx(g["sub"]), g["bp"], ",".join(hx(m) for m in g["mons"]))
+        if h % 3 == 0:
+            lines.append(inst_s(mutate(f), t)); lines.append("query config")
+            # then a valid one so that updates have something to work on
+        lines.append(inst_s(f, t)); lines.append("query config")
+        # --- UpdateConfig on every subset of sections, each section valid or corrupted ---
+        for mask in range(32):
+            g = mutate(f) if rnd.random() < 0.6 else dict(f)
+            if rnd.random() < 0.3:
+                g2 = dict(g); g2["pp"] = "celestia"; g = g2        # prefix change together with other sections
+            nat = native_s(g) if mask & 1 else "-"
+            pro = protocol_s(g) if mask & 2 else "-"
+            fee = fee_s(g) if mask & 4 else "-"
+            mon = "[%s]" % ",".join(hx(m) for m in g["mons"]) if mask & 8 else "-"
+            bp = str(rnd.choice([0, 1, 3600])) if mask & 16 else "-"
+            who = c.admin if rnd.random() < 0.9 else c.users[0]
+            keep = rnd.random() < 0.3
+            if not keep:
+                lines.append("tx_begin")
+            lines.append("exec %d - %s [] updcfg %s %s %s %s %s" % (t + mask, hx(who), nat, pro, fee, mon, bp))
+            lines.append("query config")
+            if not keep:
+                lines.append("tx_abort")
+        # --- validators ---
+        for k in range(8):
+            v = rnd.choice(c.validators + [b32.addr(c.vp, "new%d" % k), corrupt_addr(rnd, c.validators[0], c.vp), b32.addr(c.np, "acct")])
+            who = c.admin if rnd.random() < 0.85 else c.users[0]
+            lines.append("exec %d - %s [] %s %s" % (t + 100 + k, hx(who), rnd.choice(["addval", "rmval"]), hx(v)))
+        # --- the helper functions themselves ---
+        for k in range(12):
+            lines.append("fn vprefix %s" % hx(rnd.choice([c.np, "osmo", corrupt_prefix(rnd, c.np), corrupt_prefix(rnd, "osmo")])))
+            a = rnd.choice([c.staker, c.admin, c.validators[0]])
+            lines.append("fn vaddr %s %s" % (hx(rnd.choice([a, corrupt_addr(rnd, a, c.np)])), hx(rnd.choice([c.np, "osmo", c.vp, c.np.upper()]))))
+            lines.append("fn vchan %s" % hx(rnd.choice([c.channel, corrupt_channel(rnd), "channel-%d" % rnd.getrandbits(rnd.randrange(1, 70))])))
+            lines.append("fn vibc %s" % hx(rnd.choice([D, corrupt_ibc(rnd)])))
+            lines.append("fn vdenom %s" % hx(rnd.choice(["stTIA", corrupt_denom(rnd)])))
+    return "\n".join(lines) + "\n", {"histories": n}
